@@ -106,7 +106,12 @@ def run_refusal_oracle(outcome, tier, seed):
     firsts = []
     # documents that serialize to (almost) nothing: an empty table must still count as the one document
     for fmt, v0, t0 in (("json", {}, b"{}"), ("yaml", {}, b"{}\n"), ("msgpack", {}, b"\x80"), ("toml", {}, b""),
-                        ("toml", {}, b"# only a comment\n"), ("json", {"a": {}}, b'{"a":{}}'), ("msgpack", {"a": {}}, b"\x81\xa1a\x80")):
+                        ("toml", {}, b"# only a comment\n"), ("json", {"a": {}}, b'{"a":{}}'), ("msgpack", {"a": {}}, b"\x81\xa1a\x80"),
+                        # strings that look like TOML's own date-time, number and boolean literals must stay strings
+                        ("json", {"d": "2001-01-01T00:00:00Z", "l": ["1979-05-27T07:32:00-08:00", "2001-01-01 00:00:00+01:00", "12:30:45", "2001-01-01"],
+                                  "n": {"x": "1_000", "y": "0x1F", "z": "true", "w": "inf", "v": "1e3"}},
+                         b'{"d":"2001-01-01T00:00:00Z","l":["1979-05-27T07:32:00-08:00","2001-01-01 00:00:00+01:00","12:30:45","2001-01-01"],'
+                         b'"n":{"x":"1_000","y":"0x1F","z":"true","w":"inf","v":"1e3"}}')):
         d2 = history.make_doc(rng, fmt if fmt != "toml" else "json", depth=1, root="map")
         firsts.append((fmt, (v0, t0), d2))
     for _ in range(n * 2):
